@@ -162,7 +162,7 @@ fn boxed(n: usize, b0: u8) -> Box<[u8]> {
 
 /// One `put` of a mutable item with value length VLEN and salt SALT (usize::MAX = no salt) on a
 /// store that holds (or not) a previous item for the same target and an unrelated item.
-fn put_mutable_case(vlen: usize, salt_len: Option<usize>, narrow: bool) {
+fn put_mutable_case(vlen: usize, salt_len: Option<usize>, narrow: bool) -> (i32, bool, bool) {
     let tb: u8 = 0x10;
     let target = id1(tb);
     let other = id1(tb ^ 0x80);
@@ -257,20 +257,18 @@ fn put_mutable_case(vlen: usize, salt_len: Option<usize>, narrow: bool) {
     assert!(after_sizes.1 == before_sizes.1 && after_sizes.2 == before_sizes.2 && after_sizes.3 == before_sizes.3,
         "C03: the other stores are untouched by a mutable put");
 
-    kani::cover!(code == 0 && has_prev, "accepted over an existing item");
-    if !narrow {
-        kani::cover!(code == 301, "301 reachable");
-        kani::cover!(code == 302, "302 reachable");
-        kani::cover!(code == 206 && token_ok, "206 reachable");
-    }
     core::mem::forget(s);
     core::mem::forget(table);
+    (code, has_prev, token_ok)
 }
 
 macro_rules! server_stubs {
     ($(#[$m:meta])* fn $name:ident() $body:block) => {
+        server_stubs! { unwind 22; $(#[$m])* fn $name() $body }
+    };
+    (unwind $u:literal; $(#[$m:meta])* fn $name:ident() $body:block) => {
         #[kani::proof]
-        #[kani::unwind(22)]
+        #[kani::unwind($u)]
         #[kani::stub(Tokens::validate, stub_validate)]
         #[kani::stub(Tokens::generate_token, stub_generate_token)]
         #[kani::stub(Tokens::should_update, stub_should_update)]
@@ -286,15 +284,43 @@ macro_rules! server_stubs {
     };
 }
 
-server_stubs! { fn c03_put_mutable_all_verdicts_seq_cas() { put_mutable_case(0, None, false) } }
-server_stubs! { fn c03_put_mutable_value_1000_salt_64_accepted() { put_mutable_case(1000, Some(64), true) } }
-server_stubs! { fn c03_put_mutable_value_1001_refused_205() { put_mutable_case(1001, None, true) } }
-server_stubs! { fn c03_put_mutable_salt_65_refused_207() { put_mutable_case(1, Some(65), true) } }
+server_stubs! {
+fn c03_put_mutable_all_verdicts_seq_cas() {
+    let (code, has_prev, token_ok) = put_mutable_case(0, None, false);
+    kani::cover!(code == 0 && has_prev, "accepted over an existing item");
+    kani::cover!(code == 301, "301 reachable");
+    kani::cover!(code == 302, "302 reachable");
+    kani::cover!(code == 206 && token_ok, "206 reachable");
+}
+}
+server_stubs! {
+fn c03_put_mutable_value_1000_salt_64_accepted() {
+    let (code, has_prev, _) = put_mutable_case(1000, Some(64), true);
+    kani::cover!(code == 0 && has_prev, "1000/64 accepted over an existing item");
+    kani::cover!(code == 0 && !has_prev, "1000/64 accepted on an empty slot");
+}
+}
+server_stubs! {
+fn c03_put_mutable_value_1001_refused_205() {
+    let (code, _, token_ok) = put_mutable_case(1001, None, true);
+    assert!(code != 0);
+    kani::cover!(code == 205, "205 reachable");
+    kani::cover!(code == 203 && !token_ok, "203 reachable");
+}
+}
+server_stubs! {
+fn c03_put_mutable_salt_65_refused_207() {
+    let (code, _, token_ok) = put_mutable_case(1, Some(65), true);
+    assert!(code != 0);
+    kani::cover!(code == 207, "207 reachable");
+    kani::cover!(code == 203 && !token_ok, "203 reachable");
+}
+}
 
 // =============================================================================================
 // put of an immutable value (C03)
 // =============================================================================================
-fn put_immutable_case(vlen: usize) {
+fn put_immutable_case(vlen: usize) -> (i32, bool) {
     let tb: u8 = kani::any();
     let target = id1(tb);
     let other = id1(tb ^ 0x80);
@@ -338,16 +364,33 @@ fn put_immutable_case(vlen: usize) {
     assert!(mut_view(&s, &other) == before_mut);
     let a = sizes(&s);
     assert!(a.0 == before_sizes.0 && a.2 == before_sizes.2 && a.3 == before_sizes.3);
+    core::mem::forget(s);
+    core::mem::forget(table);
+    (code, token_ok)
+}
+
+server_stubs! {
+fn c03_put_immutable_all_verdicts() {
+    let (code, token_ok) = put_immutable_case(1);
     kani::cover!(code == 0);
     kani::cover!(code == 203 && token_ok, "hash mismatch reachable");
     kani::cover!(code == 203 && !token_ok, "bad token reachable");
-    core::mem::forget(s);
-    core::mem::forget(table);
 }
-
-server_stubs! { fn c03_put_immutable_all_verdicts() { put_immutable_case(1) } }
-server_stubs! { fn c03_put_immutable_value_1000_accepted() { put_immutable_case(1000) } }
-server_stubs! { fn c03_put_immutable_value_1001_refused_205() { put_immutable_case(1001) } }
+}
+server_stubs! {
+fn c03_put_immutable_value_1000_accepted() {
+    let (code, _) = put_immutable_case(1000);
+    kani::cover!(code == 0, "1000 bytes accepted");
+}
+}
+server_stubs! {
+fn c03_put_immutable_value_1001_refused_205() {
+    let (code, token_ok) = put_immutable_case(1001);
+    assert!(code != 0);
+    kani::cover!(code == 205, "205 reachable");
+    kani::cover!(code == 203 && !token_ok, "203 reachable");
+}
+}
 
 // =============================================================================================
 // announce_peer (C03): recorded as the sender's own IP with the explicit or implied port
@@ -400,6 +443,7 @@ fn c03_announce_peer_records_senders_ip_and_port() {
 // announce_signed_peer (C03)
 // =============================================================================================
 server_stubs! {
+unwind 66;
 fn c03_announce_signed_peer_needs_token_signature_and_fresh_timestamp() {
     let hb: u8 = kani::any();
     let info_hash = id1(hb);
@@ -497,6 +541,7 @@ fn c03_filter_veto_no_reply_no_change() {
 // get of a mutable item (C04)
 // =============================================================================================
 server_stubs! {
+unwind 66;
 fn c04_get_returns_last_accepted_item_or_its_seq_or_nothing() {
     let tb: u8 = kani::any();
     let target = id1(tb);
